@@ -2122,7 +2122,10 @@ def infidelity(
                              + 'but omega not equal to cached frequencies.')
 
         filter_function = pulse.get_pulse_correlation_filter_function()
-        if pulse.is_cached('control_matrix_pc'):
+        # Without the pulse correlation control matrix the identity component can only be left
+        # out if it vanishes, i.e. for traceless noise operators
+        traceless = np.allclose(np.einsum('ajj->a', pulse.n_opers[idx]), 0)
+        if pulse.is_cached('control_matrix_pc') or not traceless:
             control_matrix = pulse.get_pulse_correlation_control_matrix()
             filter_function = filter_function - np.einsum(
                 'gao,hbo->ghabo',
